@@ -39,7 +39,19 @@ package main
 //	    recording was split or left open.
 //	stale-keyframe, closing-flush-creates-file
 //	    Recorder defects 3 and 2 (fixed by c20-fix3/fix2), trigger observed in
-//	    the pinned builder's release schedule.
+//	    the pinned builder's release schedule.  (stale-keyframe only loses the
+//	    frames released before the first keyframe that was not stale came out,
+//	    i.e. while no file existed; later it only cost a keyframe flag.)
+//	muxer-drops-block-32s-behind-cluster
+//	    A missing video frame that the pinned builder released intact (the
+//	    recorder had it and handed it to the muxer) in the same burst as a
+//	    later frame h that IS in the file; h's block has a negative relative
+//	    timecode (it lies behind the start of its cluster, so nothing but this
+//	    burst's older video blocks was written between the two and the cluster
+//	    is the one that was current for the missing frame as well), and the
+//	    missing frame's timecode, computed from h's, is 32767 ms or more behind
+//	    that cluster's: mkvcore's block writer drops such a block
+//	    (ErrIgnoreOldFrame; galene installs no error handler).
 //	recovered-frame-padded, packet-not-fetched-from-cache
 //	    Self-evident from the sample / from the GetPacket calls observed.
 
@@ -453,13 +465,63 @@ func (s *session) attributeHandedOver(v *verdict, t *track, pin []sample, trig m
 	}
 }
 
+// attributeClusterDrop: see muxer-drops-block-32s-behind-cluster at the top of
+// this file.
+func (s *session) attributeClusterDrop(v *verdict, pin []sample) {
+	t := s.video
+	_, ms := t.checkSamples(pin, nil, false)
+	relPos := map[int]int{}
+	for i, m := range ms {
+		if m.frame >= 0 {
+			relPos[m.frame] = pin[i].pos
+		}
+	}
+	blk := map[int]sample{}
+	for i, m := range v.matches[1] {
+		if m.frame >= 0 {
+			blk[m.frame] = v.per[1][i]
+		}
+	}
+	for _, f := range v.open() {
+		if f.trk != 1 || f.frame < 0 || f.symptom != "frame-missing" {
+			continue
+		}
+		pos, ok := relPos[f.frame]
+		if !ok {
+			continue
+		}
+		g := &t.frames[f.frame]
+		for h := f.frame + 1; h < len(t.frames); h++ {
+			if p, ok := relPos[h]; !ok || p != pos {
+				break // the burst ends here
+			}
+			b, ok := blk[h]
+			if !ok {
+				continue
+			}
+			// the later of the two timecodes the frame can have (the origin is
+			// known modulo the 90 ticks of a millisecond only)
+			tc := b.tc - int64(t.frames[h].ts-g.ts)/90
+			if b.tc < b.ctc && tc-b.ctc <= -32767 {
+				f.key = "muxer-drops-block-32s-behind-cluster"
+				f.what += fmt.Sprintf(" - the recorder had the frame: the pinned sample builder, run alone on the packets the recorder received, releases it intact at feed position %d in one burst with frame %d, which is in the file at %d ms in a cluster that starts at %d ms (relative timecode %d: nothing but this burst's video was written in between); this frame's timecode is %d ms, %d ms behind the cluster: the muxer (mkvcore block writer) silently drops a block 32767 ms or more behind its current cluster", pos, h, b.tc, b.ctc, b.tc-b.ctc, tc, b.ctc-tc)
+			}
+			break
+		}
+	}
+}
+
 // staleInfo: which keyframes the pinned builder released only after the first
 // packet of another keyframe had arrived, and when the first keyframe that is
 // not stale came out.
-func (t *track) staleInfo(pin []sample) (stale []bool, released []bool, goodKfAt int) {
+func (t *track) staleInfo(pin []sample) (stale []bool, released []bool, goodKfAt int, relIdx []int, goodKfIdx int) {
 	n := len(t.frames)
 	stale, released = make([]bool, n), make([]bool, n)
-	goodKfAt = -1
+	goodKfAt, goodKfIdx = -1, -1
+	relIdx = make([]int, n) // index in pin of the sample carrying the frame's timestamp
+	for i := range relIdx {
+		relIdx[i] = -1
+	}
 	ff := t.firstFeed()
 	byTs := map[uint32]int{}
 	for i := range t.frames {
@@ -472,12 +534,15 @@ func (t *track) staleInfo(pin []sample) (stale []bool, released []bool, goodKfAt
 			break
 		}
 	}
-	for _, smp := range pin {
+	for si, smp := range pin {
 		g, ok := byTs[smp.ts]
 		if !ok {
 			continue
 		}
 		released[g] = true
+		if relIdx[g] < 0 {
+			relIdx[g] = si
+		}
 		if !t.frames[g].key {
 			continue
 		}
@@ -500,7 +565,7 @@ func (t *track) staleInfo(pin []sample) (stale []bool, released []bool, goodKfAt
 		if st {
 			stale[g] = true
 		} else if goodKfAt < 0 {
-			goodKfAt = smp.pos
+			goodKfAt, goodKfIdx = smp.pos, si
 		}
 	}
 	return
@@ -678,6 +743,14 @@ func (s *session) attribute(v *verdict, rerun func() (*session, *verdict)) {
 		return
 	}
 
+	// ---- the muxer drops what is 32.767 s or more behind its current cluster
+	if s.video != nil {
+		s.attributeClusterDrop(v, probes[1].pin)
+	}
+	if len(v.open()) == 0 {
+		return
+	}
+
 	// ---- sender reports: replay the session without them
 	if rerun != nil && s.hasMidstreamSR() {
 		s2, v2 := rerun()
@@ -736,7 +809,7 @@ func (s *session) attribute(v *verdict, rerun func() (*session, *verdict)) {
 	// ---- recorder defects 2 and 3 (c20-fix2, c20-fix3), from the release schedule
 	if s.video != nil {
 		pr := probes[1]
-		stale, released, goodKfAt := s.video.staleInfo(pr.pin)
+		stale, released, goodKfAt, relIdx, goodKfIdx := s.video.staleInfo(pr.pin)
 		staleAt := func(i int) bool {
 			for g := i; g >= 0; g-- {
 				if s.video.frames[g].key && released[g] {
@@ -751,7 +824,9 @@ func (s *session) attribute(v *verdict, rerun func() (*session, *verdict)) {
 			case closingFlush && (f.symptom == "file-left-open" || f.symptom == "frame-missing" || f.symptom == "not-flushed" || f.symptom == "malformed-container"):
 				f.key = "closing-flush-creates-file"
 				f.what += "; no video keyframe had been released by the sample builder before the closing call (its forced flush released the first one), so the file was created during the close, after the audio writer had already been closed"
-			case f.trk == 1 && f.frame >= 0 && (f.symptom == "frame-missing" || f.symptom == "not-flushed") && staleAt(f.frame):
+			case f.trk == 1 && f.frame >= 0 && (f.symptom == "frame-missing" || f.symptom == "not-flushed") && staleAt(f.frame) && (goodKfIdx < 0 || relIdx[f.frame] < goodKfIdx):
+				// (once a keyframe that was not stale has come out the file
+				// exists, and a stale keyframe is merely written without its flag)
 				f.key = "stale-keyframe"
 				f.what += " (its keyframe was released by the sample builder only after the first packet of another keyframe had arrived)"
 			}
